@@ -2,6 +2,8 @@ package main
 
 import (
 	"fmt"
+	"os"
+	"runtime"
 	"go/token"
 	"go/types"
 	"sort"
@@ -297,7 +299,7 @@ func (st *State) havocSet(ms *ModSet) {
 			st.growAlloc()
 			continue
 		}
-		if st.e.heapSorts[h] == "" {
+		if st.e.heapSortFromID(h) == "" {
 			st.pendingHavoc(h)
 			continue
 		}
@@ -332,6 +334,11 @@ func (st *State) growAlloc() {
 }
 
 func (st *State) havocAll() {
+	if os.Getenv("P9VC_DEBUG_HAVOC") != "" {
+		buf := make([]byte, 3000)
+		buf = buf[:runtime.Stack(buf, false)]
+		fmt.Println("HAVOC-ALL\n" + string(buf))
+	}
 	for _, id := range sortedKeys(st.heap) {
 		if id == allocHeap {
 			st.growAlloc()
@@ -558,10 +565,7 @@ func (x *Exec) applyContract(st *State, fr *frame, ct *Contract, sig *types.Sign
 		x.obligeAt(st, fr, "pre", pos, shortCallee(name)+"/"+clauseName("requires", i, r), t)
 		st.assume(t)
 	}
-	old := make(map[string]string, len(st.heap))
-	for k, v := range st.heap {
-		old[k] = v
-	}
+	old := st.snapshot()
 	// frame
 	if ct.HasMod {
 		ms := newModSet()
@@ -637,6 +641,9 @@ func (x *Exec) doInvoke(st *State, fr *frame, c *ssa.CallCommon, recv Val, args 
 			conds = append(conds, cond)
 			s2, f2 := st.clone(), fr
 			s2.assumePC(cond)
+			if !x.feasible(s2) {
+				continue
+			}
 			fn := e.prog.LookupMethod(t, c.Method.Pkg(), c.Method.Name())
 			rv := Val{T: e.unbox(t, "(i_ref "+recv.T+")"), Ty: t}
 			s2.assume(e.typeInv(t, rv.T))
@@ -644,6 +651,9 @@ func (x *Exec) doInvoke(st *State, fr *frame, c *ssa.CallCommon, recv Val, args 
 		}
 		// and a dynamic type from outside
 		st.assumePC(not(or(conds...)))
+		if !x.feasible(st) {
+			return outs
+		}
 		e.notes["interface call "+iname+" on a dynamic type outside the analysed packages: arbitrary result, arbitrary heap effect"] = true
 		st.havocAll()
 		outs = append(outs, callOut{st: st, val: st.fresh("dyn", c.Signature().Results())})
